@@ -76,6 +76,7 @@ structure Env where
   problemApplies : Bool    -- NotificationReasonApplies(Problem): last result exists and is not OK
   recoveryApplies : Bool   -- NotificationReasonApplies(Recovery)
   force : Bool             -- force_next_notification (read and reset by SendNotifications)
+  authUpdated : Bool       -- ApiListener::UpdatedObjectAuthority(): false during the cold-start phase
   users : List UEnv        -- users ∪ members of the user groups
   deriving Repr, DecidableEq
 
@@ -114,8 +115,9 @@ structure St where
   noMore : Bool                -- no_more_notifications
   number : Nat                 -- notification_number
   sup : Sup                    -- suppressed_notifications
+  stash : List (NType × Bool)  -- stashed_notifications: (type, force) in arrival order
 
-def init : St := { npu := [], lns := fun _ => none, next := 0, noMore := false, number := 0, sup := {} }
+def init : St := { npu := [], lns := fun _ => none, next := 0, noMore := false, number := 0, sup := {}, stash := [] }
 
 /-- What one call of `BeginExecuteNotification` shows to the outside: for every type the call that got
     past the notification-level filters (`OnNotificationSentToAllUsers`, with the users the command was
@@ -125,6 +127,7 @@ structure Event where
   ty : NType
   reminder : Bool
   passed : Bool
+  force : Bool          -- the call was forced (force_next_notification of the request it stems from)
   users : List Nat
   deriving Repr, DecidableEq
 
@@ -204,8 +207,8 @@ def userLoop (c : Cfg) (ty : NType) (force reminder : Bool) (e : Env) :
     (q.1, q.2.1, if r.2.2 then u.id :: q.2.2 else q.2.2)
 
 /-- What a call that stops at a notification-level guard shows. -/
-def filteredEv (ty : NType) (reminder : Bool) : Option Event :=
-  if ty == .recovery then some ⟨ty, reminder, false, []⟩ else none
+def filteredEv (ty : NType) (reminder force : Bool) : Option Event :=
+  if ty == .recovery then some ⟨ty, reminder, false, force, []⟩ else none
 
 /-- notification.cpp:383-400: the bookkeeping once the notification-level filters are passed. -/
 def book (c : Cfg) (s : St) (ty : NType) (e : Env) : St :=
@@ -219,32 +222,45 @@ def book (c : Cfg) (s : St) (ty : NType) (e : Env) : St :=
 def beginExec (c : Cfg) (s : St) (ty : NType) (force reminder : Bool) (e : Env) : St × Option Event :=
   -- 236-241
   let s : St := if ty == .recovery then { s with lns := fun _ => none } else s
-  if gPeriod force e then ({ s with sup := stashSup s.sup ty reminder }, filteredEv ty reminder)        -- 248-286
+  if gPeriod force e then ({ s with sup := stashSup s.sup ty reminder }, filteredEv ty reminder force)        -- 248-286
   else if gBegin c ty force e then
-    ({ s with next := e.lhsc + c.tbegin.getD 0 + 1, noMore := false }, filteredEv ty reminder)             -- 295-312
-  else if gEnd c ty force e then (s, filteredEv ty reminder)                                             -- 314-319
+    ({ s with next := e.lhsc + c.tbegin.getD 0 + 1, noMore := false }, filteredEv ty reminder force)             -- 295-312
+  else if gEnd c ty force e then (s, filteredEv ty reminder force)                                             -- 314-319
   else if gType c ty force then
     ({ s with noMore := if ty == .recovery && decide (c.interval ≤ 0) then false else s.noMore,
               npu := if ty == .recovery then [] else s.npu },                                             -- fix cec0506
-     filteredEv ty reminder)                                                                              -- 329-350
-  else if gState c ty force e then (s, filteredEv ty reminder)                                           -- 349-376
+     filteredEv ty reminder force)                                                                              -- 329-350
+  else if gState c ty force e then (s, filteredEv ty reminder force)                                           -- 349-376
   else
     let s := book c s ty e
     let r := userLoop c ty force reminder e s.npu s.lns e.users
     -- 499-501: the list is cleared here and (since fix cec0506, F-C03a) on the type-filter return above; a Recovery
     -- withheld by the closed period keeps it — it is re-sent later to exactly these users
     let npu := if ty == .recovery then [] else r.1
-    ({ s with npu := npu, lns := r.2.1 }, some ⟨ty, reminder, true, r.2.2⟩)
+    ({ s with npu := npu, lns := r.2.1 }, some ⟨ty, reminder, true, force, r.2.2⟩)
 
-/-! ## Checkable::SendNotifications (checkable-notification.cpp:33-112; cold-start stashing not modelled) -/
+/-- One call of `BeginExecuteNotification` as a step: the new state and the events it shows (at most one). -/
+def beginStep (c : Cfg) (ty : NType) (force reminder : Bool) (e : Env) : St → St × List Event :=
+  fun s => ((beginExec c s ty force reminder e).1, (beginExec c s ty force reminder e).2.toList)
 
-def sendBlocked (e : Env) : Bool := (!(e.globalEnabled && e.ckEnabled) && !e.force) || e.paused
+/-- Run `f`, then `g` on the resulting state; the events are concatenated. -/
+def seq (f g : St → St × List Event) : St → St × List Event :=
+  fun s => let a := f s; let b := g a.1; (b.1, a.2 ++ b.2)
 
+/-! ## Checkable::SendNotifications (checkable-notification.cpp:33-112) -/
+
+/-- checkable-notification.cpp:43-49: global / checkable switch unless forced. -/
+def sendBlocked (e : Env) : Bool := !(e.globalEnabled && e.ckEnabled) && !e.force
+
+/-- checkable-notification.cpp:66-111 for one notification object: during the cold-start phase (object authority
+    not yet updated) the request is stashed; afterwards a paused object is skipped, a request that finds
+    earlier ones still stashed queues up behind them, otherwise it is processed at once. -/
 def sendStep (c : Cfg) (s : St) (ty : NType) (e : Env) : St × List Event :=
   if sendBlocked e then (s, [])
-  else
-    let r := beginExec c s ty e.force false e
-    (r.1, r.2.toList)
+  else if !e.authUpdated then ({ s with stash := s.stash ++ [(ty, e.force)] }, [])
+  else if e.paused then (s, [])
+  else if !s.stash.isEmpty then ({ s with stash := s.stash ++ [(ty, e.force)] }, [])
+  else beginStep c ty e.force false e s
 
 /-! ## NotificationComponent: FireSuppressedNotifications + NotificationTimerHandler -/
 
@@ -258,10 +274,6 @@ def reasonSuppressed (e : Env) : NType → Bool
   | .problem | .recovery => !e.reachable || e.inDowntime || e.acked
   | .flapStart | .flapEnd => e.inDowntime
   | _ => false
-
-/-- Run `f`, then `g` on the resulting state; the events are concatenated. -/
-def seq (f g : St → St × List Event) : St → St × List Event :=
-  fun s => let a := f s; let b := g a.1; (b.1, a.2 ++ b.2)
 
 /-- notificationcomponent.cpp:97-117, one type: `fire` was decided on the types read at entry. -/
 def fireOne (c : Cfg) (fire : Bool) (ty : NType) (e : Env) : St → St × List Event :=
@@ -310,13 +322,25 @@ def reminderStep (c : Cfg) (e : Env) : St → St × List Event :=
       else (s1, [])
     else (s, [])
 
-/-- notificationcomponent.cpp:171-212: stashed (not modelled) and suppressed notifications, only while reachable. -/
+/-- notificationcomponent.cpp:187-208: the stashed requests, in arrival order, each with its own force flag. -/
+def unstashList (c : Cfg) (e : Env) : List (NType × Bool) → St → St × List Event
+  | [], s => (s, [])
+  | (ty, force) :: rest, s => seq (beginStep c ty force false e) (unstashList c e rest) s
+
+/-- notificationcomponent.cpp:175-209: the stash is emptied, then replayed. -/
+def unstash (c : Cfg) (e : Env) : St → St × List Event :=
+  fun s => unstashList c e s.stash { s with stash := [] }
+
+/-- notificationcomponent.cpp:171-212: stashed and suppressed notifications, only while reachable. -/
 def supStep (c : Cfg) (e : Env) : St → St × List Event :=
-  fun s => if e.reachable then fireSup c e s else (s, [])
+  fun s => if e.reachable then seq (unstash c e) (fireSup c e) s else (s, [])
+
+/-- notificationcomponent.cpp:146-157: a paused object drops what is stashed once the authority is known. -/
+def dropStash (s : St) (e : Env) : St := if e.paused && e.authUpdated then { s with stash := [] } else s
 
 /-- notificationcomponent.cpp:131-262 for one (active) notification object. -/
 def tickStep (c : Cfg) (s : St) (e : Env) : St × List Event :=
-  if tickSkipped e then (s, [])
-  else seq (supStep c e) (reminderStep c e) s
+  if tickSkipped e then (dropStash s e, [])
+  else seq (supStep c e) (reminderStep c e) (dropStash s e)
 
 end Icinga.C03
